@@ -436,7 +436,13 @@ def run_case(R, r):
                 tvs, targ = L.vsexp(tt, dd, cache, "py")
                 bi = 0 if kind == "existing-same" else r.choice([1, 2])
                 try:
-                    tobj = tcls(targ, _buffer=hc.bufs[bi])
+                    mk = tcls
+                    if kind == "existing-same" and r.random() < 0.5:
+                        # the SAME type expression evaluated a second time: other class objects with the same names ("same type" is
+                        # decided by name) - the object must still be aliased, not copied
+                        mk = T.build(tt, {})
+                        R.tags["bind.existing-same.twin-class"] += 1
+                    tobj = mk(targ, _buffer=hc.bufs[bi])
                     hc.note_allocs()
                     hc.ops += [f"type TT {T.sexp(tt)}", f"new TT tg {bi} {tvs}"]
                     hc.exp += ["ok", f"off {tobj._offset} mems {mems(hc.bufs)}"]
@@ -480,6 +486,9 @@ def run_case(R, r):
                 if kind == "existing-same":
                     if got_t is None or int(got_t._offset) != int(tobj._offset) or got_t._buffer is not tobj._buffer:
                         R.fail("C08:not-aliased", f"{sx[:200]}: an object of the same buffer assigned to {L.pstr(path)} was not referenced (target {getattr(got_t, '_offset', None)} vs {int(tobj._offset)})", c2)
+                        R.fail("C06:reference-target-is-not-the-bound-object", f"{sx[:200]}: the target materialised through the reference at {L.pstr(path)} "
+                               f"lives at {getattr(got_t, '_offset', None)}, the handle of the object that was bound at {int(tobj._offset)}: a write "
+                               "through one is not seen through the other", c2)
                     elif new_allocs[0]:
                         R.fail("C08:alias-allocated", f"{sx[:200]}: referencing an existing object allocated {new_allocs[0]}", c2)
                     else:
